@@ -59,3 +59,31 @@ def _(self, dumper, path):
     result_sort('node')
     ensures(result.kind == SCALAR and result.tag == STR_TAG
             and result.val == pystr(path))
+
+
+fields("yatiml/representers.py::Representer", class_="Ty")
+
+
+@contract("yatiml/representers.py::Representer.__call__")
+def _(self, dumper, data):
+    properties('C06', 'C10')
+    sort('dumper', 'dumper')
+    sort('data', 'PyV')
+    traces()
+    result_sort('node')
+    # what may leave: the documented RuntimeErrors (SeasoningError is one),
+    # a missing attribute, PyYAML's own error, whatever the user's
+    # _yatiml_attributes raises
+    raises(RuntimeError)
+    raises(AttributeError)
+    raises(YAMLError)
+    raises(UserException)
+    # PyYAML is handed a plain map tag and exactly the object's projection,
+    # in order: parameters in declaration order, then the extras in theirs
+    # (or what _yatiml_attributes returns)
+    ensures(represented_tag() == MAP_TAG)
+    ensures(represented_items() == projection(data))
+    # then the sweeten hooks of the registered bases first and the class's own
+    ensures(sav_trace() == old(sav_trace()) + swe_order(self.class_))
+    invariant(0, lambda _i, _acc: _i <= len(attribute_names)
+              and _acc == pattrs(data, attribute_names, _i))
